@@ -304,22 +304,11 @@ def main(run):
         run.refuted.append("total_" + key_of(rec))
         run.find(k, f"{rec[0]} on {rec[1]} raises {err}", {"recipe": rec[:4], "error": err})
     # ---- triage by one vm_compute, then kernel-checked theorems for the passing ones
-    res, out = run.coq_bools("C05_triage.v", HEADER, items, timeout=900)
+    res, okc = run.prove_bools("C05", HEADER, items, timeout=1500)
     if res is None:
-        run.find("coq:C05_triage", "generated obligations do not compile", {"log": out[-1500:]}, concrete=False)
+        run.find("coq:C05_triage", "generated obligations do not compile", concrete=False)
         return run.finish(rule=RULE)
-    good = [(n_, t) for (n_, t) in items if res[n_]]
     bad = [(n_, t) for (n_, t) in items if not res[n_]]
-    # simpler and robust: state theorems from stored lhs/rhs
-    thms = []
-    for n_, t in good:
-        body = t[len("mcheck_eq "):]
-        thms.append((f"ok_{n_}", f"mcheck_eq {body} = true", "vm_compute; reflexivity."))
-    ok, out2 = run.coq_theorems("C05_theorems.v", HEADER, thms, timeout=900)
-    for n_, _ in good:
-        run.oblige(n_, ok)
-    if not ok:
-        run.find("coq:C05_theorems", "theorem file does not compile", {"log": out2[-1500:]}, concrete=False)
     seen = set()
     for n_, _ in bad:
         if meta[n_] is None:
